@@ -768,3 +768,40 @@ def reduce_only_after(n: size, x: f32[n], y: f32[n]):
     d: f32
     d += x[0]
 ''')
+
+
+# --- regression programs: minimal situations of REPAIRED defects (known_findings.json, "fixed").  They are run by the
+# C01 and C04 schedule streams only (sched_run.run_stream(extra=REGRESSION)), so that a repaired defect that returns
+# is seen at depth 1 on every run, whatever the seed samples at depth 2.
+REGRESSION = {}
+
+
+def add_regression(name, src):
+    REGRESSION[name] = src
+
+
+# fixed: inline_assign substituted the right-hand side for a call ARGUMENT (`t = x[i]; rd_sc(n, y, i, t)` became
+# `rd_sc(n, y, i, x[i])`, which the front end rejects and the backend asserts on) and matched the whole-tensor
+# argument `u` with the pattern `u[0]` (`rd_t(z, u)` became `rd_t(z, x[0])`)
+add_regression("assign_then_call", '''
+@proc
+def rd_sc(n: size, y: f32[n], i: index, t: f32):
+    assert 0 <= i
+    assert i < n
+    y[i] = t
+
+@proc
+def rd_t(z: f32[2], u: f32[2]):
+    z[0] = u[0]
+
+@proc
+def assign_then_call(n: size, x: f32[n], y: f32[n], z: f32[2]):
+    for i in seq(0, n):
+        t: f32
+        t = x[i]
+        rd_sc(n, y, i, t)
+    u: f32[2]
+    u[0] = 1.0
+    u[1] = 2.0
+    rd_t(z, u)
+''')
